@@ -261,7 +261,7 @@ func genPacket(r interface {
 	rr := core.Rng(r.Uint64())
 	rc := gen.Random(rr, core.Pick(rr, 0, 0, 1, 3))
 	rc.Response = false
-	rc.QName = fmt.Sprintf("t%d.%s", rr.IntN(1000), core.Pick(rr, "test.", "Test.", "other.", "sub.test."))
+	rc.QName = fmt.Sprintf("t%d.%s", rr.IntN(1000), core.Pick(rr, "test.", "Test.", "other.", "sub.test.", "oThEr.", "SUB.tesT."))
 	note := "valid"
 	switch rr.IntN(10) {
 	case 0:
@@ -537,8 +537,31 @@ func (a *adm) ServeDNS(w dns.ResponseWriter, r *dns.Msg) {
 
 type recHandler struct{ a *adm }
 
+func qname(m *dns.Msg) string {
+	if len(m.Question) == 0 {
+		return ""
+	}
+	return m.Question[0].Name
+}
+
 //go:norace
 func (h recHandler) ServeDNS(w dns.ResponseWriter, r *dns.Msg) {
+	// the handler the multiplexer chose is handed the decoded request as well - the multiplexer routes, it does not edit
+	if b := h.a.byID[r.Id]; b != nil {
+		seen := b
+		if h.a.sc.Transport == "udp" && len(seen) > h.a.sc.UDPSize {
+			seen = seen[:h.a.sc.UDPSize]
+		}
+		exp := new(dns.Msg)
+		if exp.Unpack(append([]byte(nil), seen...)) == nil {
+			h.a.k.Lock()
+			h.a.res.Stats["oracle.D1_routed_request_is_the_decoded_one"]++
+			if !reflect.DeepEqual(r, exp) {
+				h.a.res.Fail("D1", "routed-request-differs", "the handler the multiplexer chose for message id %d was handed a request that differs from the decode of the octets received: asked %q, handed %q", r.Id, qname(exp), qname(r))
+			}
+			h.a.k.Unlock()
+		}
+	}
 	m := new(dns.Msg)
 	m.SetReply(r)
 	if h.a.sc.Async && h.a.sc.Transport == "tcp" && r.Id%2 == 0 {
@@ -824,6 +847,10 @@ func runAdmission(sc *Scenario, res *core.Result, verbose bool) {
 func runAdmLife(sc *Scenario, res *core.Result, k *kernel.K, n *simnet.Net, srv *dns.Server, verbose bool) bool {
 	a := &adm{sc: sc, k: k, n: n, res: res, byID: map[uint16][]byte{}, handled: map[uint16]int{}, peerFin: make([]bool, sc.Peers), dgramBase: len(n.Dgrams)}
 	a.mux = dns.NewServeMux()
+	if sc.RunSeed%3 == 0 {
+		a.mux = new(dns.ServeMux) // "The zero ServeMux is empty and ready for use"
+		res.Bump("cover.zero_value_serve_mux")
+	}
 	a.mux.Handle("test.", recHandler{a})
 	a.srv = srv
 	srv.Handler, srv.MsgAcceptFunc, srv.MsgInvalidFunc, srv.UDPSize = a, a.accept, a.invalidFunc, sc.UDPSize
@@ -1274,9 +1301,10 @@ type idHandler struct {
 }
 
 type dispatchCtx struct {
-	got  int
-	park int
-	k    *kernel.K
+	got     int
+	sawName string
+	park    int
+	k       *kernel.K
 }
 
 // fakeWriter is the ResponseWriter of a direct dispatch; it records what the
@@ -1316,6 +1344,7 @@ type net0 = net.Addr
 func (h idHandler) ServeDNS(w dns.ResponseWriter, r *dns.Msg) {
 	fw := w.(*fakeWriter)
 	fw.ctx.got = h.id
+	fw.ctx.sawName = qname(r)
 	for i := 0; i < fw.ctx.park; i++ {
 		fw.ctx.k.Yield("mux.handler", 0)
 	}
@@ -1366,6 +1395,11 @@ func (t *muxTask) RunEvent(time.Time) {
 			fw := &fakeWriter{ctx: ctx}
 			r.mux.ServeDNS(fw, req)
 			out.H = ctx.got
+			if qname(req) != op.QName || (ctx.got != 0 && ctx.sawName != op.QName) {
+				k.Lock()
+				r.res.Fail("D4", "dispatch-edited-request", "the multiplexer was asked to route a request for %q; afterwards the request says %q and the handler was shown %q: it routes by the name ignoring case, it does not rewrite it", op.QName, qname(req), ctx.sawName)
+				k.Unlock()
+			}
 			if ctx.got == 0 {
 				out.H = oracle.Refused
 				k.Lock()
@@ -1373,7 +1407,7 @@ func (t *muxTask) RunEvent(time.Time) {
 				if len(fw.wrote) != 1 {
 					r.res.Fail("D4", "refused-reply-count", "no handler matched %s but the multiplexer wrote %d replies", op.QName, len(fw.wrote))
 				} else if m := fw.wrote[0]; m.Rcode != dns.RcodeRefused || !m.Response || m.Id != req.Id || m.Opcode != req.Opcode ||
-					m.RecursionDesired != req.RecursionDesired || m.CheckingDisabled != req.CheckingDisabled || len(m.Question) != 1 || m.Question[0] != req.Question[0] {
+					m.RecursionDesired != req.RecursionDesired || m.CheckingDisabled != req.CheckingDisabled || len(m.Question) != 1 || m.Question[0] != req.Question[0] || m.Question[0].Name != op.QName {
 					r.res.Fail("D5", "refused-echo", "REFUSED reply for %s does not echo the request: %s", op.QName, strings.ReplaceAll(m.String(), "\n", " | "))
 				}
 				k.Unlock()
@@ -1474,6 +1508,10 @@ func runMux(sc *Scenario, res *core.Result, verbose bool) (hist []porcupine.Oper
 	kernel.SetCurrent(k)
 	defer kernel.SetCurrent(nil)
 	r := &muxRun{sc: sc, k: k, res: res, mux: dns.NewServeMux()}
+	if sc.RunSeed%3 == 0 {
+		r.mux = &dns.ServeMux{} // "The zero ServeMux is empty and ready for use"
+		res.Bump("cover.zero_value_serve_mux")
+	}
 	for i := range r.hs {
 		r.hs[i] = idHandler{r, i}
 	}
